@@ -1020,7 +1020,9 @@ fn cast_into_memory(
 
         memory.write_all(val, *sub_ty, module, builder);
 
-        let discrim = builder.ins().iconst(ptr_ty, *discriminant as i64);
+        // the discriminant is a single byte, just like in `cast_payload_into_tagged_union`.
+        // a wider store would run over whatever comes after the enum
+        let discrim = builder.ins().iconst(types::I8, *discriminant as i64);
         memory.write_val(builder, discrim, enum_layout.discriminant_offset() as i32);
 
         return Some(memory.into_value(builder, ptr_ty));
